@@ -1,9 +1,48 @@
-import NbioVerif.Lemmas.C12Frame
-/-! C12 — WebSocket message round trip (property theorems; see docs/ws.md) -/
+import NbioVerif.Lemmas.WsRoundTrip
+import NbioVerif.Lemmas.WsMaskProof
+import NbioVerif.Lemmas.WsTrunc
+/-! C12 — WebSocket message round trip: framing, masking, fragmentation, compression.
+
+    Sender: `Ws.writeMessage` (WriteMessage / writeFrame) on an endpoint with configuration `gs` and environment `es`
+    (mask key per frame, deflate); `Ws.wireOf gs es 0 ms` is everything it writes for the message list `ms`.
+    Receiver: `Ws.feed gr er {} segs []` = successive Parse calls on any segmentation `segs` of those bytes. -/
 namespace Ws
 
-/-- C12 (masking): unmasking what was masked with the same key gives the payload back -/
-theorem c12_mask_involutive (key b : Bytes) : maskSpec key (maskSpec key b) = b := maskSpec_involutive key b
+/-- C12 (main theorem): any list of text/binary messages (with ping/pong messages in between) written by one endpoint is
+    delivered to the other endpoint's message handler exactly once, in order, with the same type and payload and without
+    error — for both roles (`gs.isClient`), every 4-byte mask key per frame, every frame-size limit `gs.maxFrame > 0`
+    (any fragmentation), with or without per-message compression for every codec that satisfies the round-trip law
+    (`MsgOK.codec`), every message limit that admits the messages, and every segmentation of the byte stream into reads.
+    `MsgOK`: text payloads are valid UTF-8, control payloads are at most 125 bytes, sizes below 2^63 and within the limit. -/
+theorem c12_roundtrip (gs gr : Cfg) (es er : Env) (hkeys : ∀ i, (es.keyAt i).length = 4) (hmf : gs.maxFrame > 0)
+    (hcomp : gs.writeCompression = true → gr.enableCompression = true) (hrl : gr.readLimit = 0)
+    (ms : List (Nat × Bytes)) (hok : ∀ m ∈ ms, MsgOK gs gr es er m.1 m.2)
+    (segs : List Bytes) (hsegs : segs.flatten = wireOf gs es 0 ms) :
+    delivs (feed gr er {} segs []).acts = dataOf ms ∧ (feed gr er {} segs []).err = none := by
+  have hw : Within gr {} := by intro _; simp [msgLen, K.len]
+  have hnf : nextFrame gr {} = .need := by simp [nextFrame, decodeHdr]
+  have hobs := feed_flatten gr er hrl segs {} [] hw hnf
+  obtain ⟨k', a, _, hd, hrun⟩ := recv_messages gr gs er es hkeys hmf hcomp ms 0 {} [] ⟨rfl, rfl, rfl, rfl⟩ hok
+  simp only [List.nil_append] at hobs hrun
+  rw [hsegs] at hobs
+  have hrun' : run gr er { cache := wireOf gs es 0 ms, k := ({} : S).k } [] = ⟨{ cache := [], k := k' }, a, none⟩ := hrun
+  rw [hrun'] at hobs
+  have ha : (feed gr er {} segs []).acts = a := by
+    have := congrArg (fun o => o.1) hobs; simpa [PR.obs] using this
+  have he : (feed gr er {} segs []).err = none := by
+    have := congrArg (fun o => o.2.1) hobs; simpa [PR.obs] using this
+  exact ⟨by rw [ha, hd], he⟩
+
+/-- C12 (masking): the strided `maskXOR` (64-byte blocks of 8-byte words, 8-byte words, byte tail) is the bytewise
+    `b[i] ^= key[i % 4]`, for every length and key … -/
+theorem c12_mask_fast (key b : Bytes) (hk : key.length = 4) : maskFast key b = maskSpec key b := maskFast_eq_spec key b hk
+
+/-- … and unmasking what was masked with the same key gives the payload back -/
+theorem c12_mask_involutive (key b : Bytes) (hk : key.length = 4) : maskFast key (maskFast key b) = b := maskFast_involutive key b hk
+
+/-- C12 (header): the three length encodings (7 bit, 16 bit, 64 bit) decode to the encoded header, whatever follows -/
+theorem c12_header (h : WsF.Hdr) (tail : Bytes) (hop : h.opcode < 16) (hlen : h.len < 2 ^ 63) :
+    WsF.decHdr (WsF.encHdr h ++ tail) = some (h, (WsF.encHdr h).length) := WsF.dec_enc h tail hop hlen
 
 /-- C12 (one frame): whatever follows in the receiver's cache, `nextFrame` hands out exactly the frame `writeFrame`
     wrote (opcode, FIN, RSV1, payload, bytes consumed) for either role, any mask key, any length class -/
@@ -12,9 +51,34 @@ theorem c12_frame (gr : Cfg) (isClient : Bool) (key : Bytes) (hk : key.length = 
     (hcache : s.cache = encodeFrame isClient key opcode so fin data rsv1 ++ tail)
     (hop : opcode < 16) (hlen : data.length < 2 ^ 63)
     (hsz : sizeCheck gr (msgLen s) (infoOf isClient opcode so fin data rsv1) = none)
-    (hv : validFrame gr (infoOf isClient opcode so fin data rsv1).opcode fin rsv1 false false s.expecting = none) :
+    (hv : validFrame gr (infoOf isClient opcode so fin data rsv1).opcode fin rsv1 false false s.k.expecting = none) :
     nextFrame gr s = .frame (encodeFrame isClient key opcode so fin data rsv1).length
       (infoOf isClient opcode so fin data rsv1).opcode data fin rsv1 :=
   nextFrame_encodeFrame gr isClient key hk s opcode so fin data rsv1 tail hcache hop hlen hsz hv
+
+/-- C12 (truncWriter): however `flate.Writer` chunks its output into `Write` calls, `truncWriter` passes on the stream
+    without its last four bytes (the `00 00 ff ff` of the sync flush that permessage-deflate omits and the reader's
+    `flateReaderTail` puts back): passed on ++ held back = stream, |held back| = min 4 |stream| -/
+theorem c12_truncWriter (cs : List Bytes) :
+    (twWrites [] cs).1 ++ (twWrites [] cs).2 = cs.flatten ∧ (twWrites [] cs).2.length = min 4 cs.flatten.length := by
+  have := twWrites_spec cs [] (by simp)
+  simpa using this
+
+/-- C12 (segmentation): any segmentation of any input gives the same callbacks, replies, error and final state as one
+    Parse call on the whole input -/
+theorem c12_segmentation (g : Cfg) (e : Env) (hl : g.readLimit = 0) (segs : List Bytes) :
+    (feed g e {} segs []).obs = (feed g e {} [segs.flatten] []).obs :=
+  feed_segmentation g e hl segs {} (by intro _; simp [msgLen, K.len]) (by simp [nextFrame, decodeHdr])
+
+/-! non-vacuity: a client (masking) sends an empty text message, a ping and a 5-byte binary message in 2-byte fragments;
+    the server receives the bytes one at a time -/
+def cliCfg : Cfg := { enableCompression := false, writeCompression := false, msgLimit := 0, readLimit := 0, maxFrame := 2, isClient := true }
+def srvCfg' : Cfg := { cliCfg with isClient := false }
+def keyEnv : Env := { keyAt := fun i => [UInt8.ofNat i, 7, 9, 11], deflate := id, inflate := fun _ => ⟨[], []⟩ }
+def demoMsgs : List (Nat × Bytes) := [(1, []), (9, [1]), (2, [1, 2, 3, 4, 5])]
+
+example : (wireOf cliCfg keyEnv 0 demoMsgs).length = 6 + 7 + 3 * 6 + 2 + 2 + 1 := by decide
+example : delivs (feed srvCfg' keyEnv {} ((wireOf cliCfg keyEnv 0 demoMsgs).map fun b => [b]) []).acts = [(1, []), (2, [1, 2, 3, 4, 5])] := by
+  decide
 
 end Ws
